@@ -278,10 +278,179 @@ def _build_order(ctx) -> list[Inst]:
     return insts
 
 
+def _own_default(ctx) -> list[Inst]:
+    """OWNDEFAULT  the schema default of a defense property is the default state of THAT (already folded) step: in
+    LanguageClassesFactory._generate_assets every `.ttc` read is on the loop variable whose `.name` keys the property
+    being written.  A default state fetched from another definition (an ancestor's step of the same name, a table
+    built elsewhere) resurrects what an overriding '->' redefinition replaced."""
+    f = ctx.prog.funcs.get('LanguageClassesFactory._generate_assets') if hasattr(ctx.prog, 'funcs') else None
+    if f is None:
+        try:
+            f = ctx.prog.func('LanguageClassesFactory._generate_assets')
+        except Exception:
+            return []
+    rel = f.module.relpath
+    construct = "OWNDEFAULT: a defense property's default comes from that step's own ttc"
+    props = ('C03', 'C06')
+    reads = [n for n in ast.walk(f.node) if isinstance(n, ast.Attribute) and n.attr == 'ttc' and isinstance(n.ctx, ast.Load)]
+    if not reads:
+        return [Inst(RULE, f.short, construct, 'unproven', msg='no .ttc read in the function (computed elsewhere)',
+                     file=rel, line=f.node.lineno, props=props, nontrivial=False)]
+    # the loop variable that names the property: `for d in ...: entry['properties'][d.name] = {...}`
+    owners = set()
+    for lp in ast.walk(f.node):
+        if isinstance(lp, ast.For) and isinstance(lp.target, ast.Name):
+            v = lp.target.id
+            nested = {id(x) for sub in ast.walk(lp) if isinstance(sub, ast.For) and sub is not lp for x in ast.walk(sub)}
+            for st in ast.walk(lp):
+                if id(st) in nested:
+                    continue
+                if isinstance(st, ast.Assign) and isinstance(st.targets[0], ast.Subscript):
+                    k = st.targets[0].slice
+                    if isinstance(k, ast.Attribute) and isinstance(k.value, ast.Name) and k.value.id == v and k.attr == 'name' \
+                            and any(isinstance(r, ast.Attribute) and r.attr == 'ttc' and id(r) not in nested
+                                    for r in ast.walk(lp)):
+                        owners.add(v)
+    if len(owners) != 1:
+        return [Inst(RULE, f.short, construct, 'unproven', msg='property loop not recognised', file=rel,
+                     line=f.node.lineno, props=props, nontrivial=False)]
+    owner = next(iter(owners))
+    out = []
+    for r in reads:
+        if isinstance(r.value, ast.Name) and r.value.id == owner:
+            out.append(Inst(RULE, f.short, construct, 'ok', msg=stmt_text(r), file=rel, line=r.lineno, props=props))
+        elif isinstance(r.value, ast.Name):
+            out.append(Inst(
+                RULE, f.short, construct, 'violation',
+                msg=(f"'{stmt_text(r)}' takes a default state from another step than '{owner}', the one whose property "
+                     f"is written: the folded step already is what the type exposes ('->' replaces the inherited "
+                     f"definition with its default state), a default fetched elsewhere disagrees with it"),
+                file=rel, line=r.lineno, props=props))
+        else:
+            out.append(Inst(RULE, f.short, construct, 'unproven', msg=f"'{stmt_text(r)}'", file=rel, line=r.lineno,
+                            props=props, nontrivial=False))
+    return out
+
+
+LABELS = {'is_viable', 'is_necessary'}
+LABEL_WRITERS_MODULES = ('maltoolbox/attackgraph/analyzers/apriori.py',)
+LABEL_WRITERS = {'AttackGraph._from_dict'}      # restores what a file recorded
+
+
+def _label_owner(ctx) -> list[Inst]:
+    """LABELOWN  the analysis labels start at the top of the lattice (True) and are only ever lowered by the apriori
+    analysis; the greatest fixed point is reached only from there.  Outside the analysis module, the node class and
+    the graph reader, a store to is_viable / is_necessary (attribute store, setattr, constructor keyword) may only
+    put the constant True."""
+    out = []
+    props = ('C08',)
+    for f in ctx.prog.all_funcs():
+        rel = f.module.relpath
+        if f.module.generated:
+            continue
+        allowed = rel in LABEL_WRITERS_MODULES or f.short in LABEL_WRITERS or \
+            (f.cls is not None and f.cls.name == 'AttackGraphNode')
+        stores = []      # (node, label, value or None)
+        for n in own_nodes(f.node):
+            if isinstance(n, ast.Assign):
+                for t in n.targets:
+                    if isinstance(t, ast.Attribute) and t.attr in LABELS:
+                        stores.append((n, t.attr, n.value))
+                    elif isinstance(t, (ast.Tuple, ast.List)):
+                        for i, e in enumerate(t.elts):
+                            if isinstance(e, ast.Attribute) and e.attr in LABELS:
+                                v = n.value.elts[i] if isinstance(n.value, (ast.Tuple, ast.List)) and \
+                                    len(n.value.elts) == len(t.elts) else None
+                                stores.append((n, e.attr, v))
+            elif isinstance(n, (ast.AugAssign, ast.AnnAssign)) and isinstance(n.target, ast.Attribute) \
+                    and n.target.attr in LABELS:
+                stores.append((n, n.target.attr, getattr(n, 'value', None) if isinstance(n, ast.AnnAssign) else None))
+            elif isinstance(n, ast.Call) and isinstance(n.func, ast.Name) and n.func.id == 'setattr' and len(n.args) == 3 \
+                    and isinstance(n.args[1], ast.Constant) and n.args[1].value in LABELS:
+                stores.append((n, n.args[1].value, n.args[2]))
+            elif isinstance(n, ast.Call) and stmt_text(n.func).split('.')[-1] in ('AttackGraphNode', 'replace'):
+                for k in n.keywords:
+                    if k.arg in LABELS:
+                        stores.append((n, k.arg, k.value))
+        for (n, lab, v) in stores:
+            construct = f'LABELOWN: store to {lab}'
+            top = isinstance(v, ast.Constant) and v.value is True
+            if allowed or top:
+                out.append(Inst(RULE, f.short, construct, 'ok', msg=stmt_text(n, 60), file=rel, line=n.lineno, props=props))
+            else:
+                out.append(Inst(
+                    RULE, f.short, construct, 'violation',
+                    msg=(f"'{stmt_text(n, 70)}' stores an analysis label outside the analysis (apriori), the node class "
+                         f"and the graph reader, and not the top value True: the analysis only ever lowers labels, so "
+                         f"a label that is already low when it starts stays low - the result is not the greatest fixed "
+                         f"point of the graph it runs on"),
+                    file=rel, line=n.lineno, props=props))
+    return out
+
+
+def _closure_pass(ctx) -> list[Inst]:
+    """CLOSUREPASS  a transitive set (all ancestors, all descendants ...) kept per object and filled by ONE pass
+    `x.F.update(y.F)` / `x.F |= y.F` over a container is complete only if every y is finished before the x that copy
+    from it - i.e. only for a topologically ordered container.  Languages may declare a subtype before its parent;
+    the containers of the language graph are in declaration order.  Accepted: the copy sits in a fixpoint `while`,
+    in a recursive function, or the container went through sorted(...) / a *sort* helper (then: unproven)."""
+    out = []
+    for f in ctx.prog.all_funcs():
+        if f.module.generated:
+            continue
+        rel = f.module.relpath
+        parent = {}
+        for x in ast.walk(f.node):
+            for ch in ast.iter_child_nodes(x):
+                parent[id(ch)] = x
+        recursive = any(isinstance(c, ast.Call) and stmt_text(c.func).split('.')[-1] == f.name for c in own_nodes(f.node))
+        for n in own_nodes(f.node):
+            A = B = None
+            if isinstance(n, ast.Call) and isinstance(n.func, ast.Attribute) and n.func.attr in ('update', 'extend') \
+                    and len(n.args) == 1:
+                A, B = n.func.value, n.args[0]
+            elif isinstance(n, ast.AugAssign) and isinstance(n.op, (ast.BitOr, ast.Add)):
+                A, B = n.target, n.value
+            if not (isinstance(A, ast.Attribute) and isinstance(B, ast.Attribute) and A.attr == B.attr
+                    and isinstance(A.value, ast.Name) and isinstance(B.value, ast.Name) and A.value.id != B.value.id):
+                continue
+            loops, cur = [], parent.get(id(n))
+            while cur is not None and cur is not f.node:
+                if isinstance(cur, (ast.For, ast.While)):
+                    loops.append(cur)
+                cur = parent.get(id(cur))
+            if not loops:
+                continue
+            construct = f"CLOSUREPASS: '{stmt_text(n, 50)}' accumulates .{A.attr} transitively"
+            props = props_for(f.short, rel) or ('C15',)
+            if recursive or any(isinstance(l, ast.While) for l in loops):
+                out.append(Inst(RULE, f.short, construct, 'ok', msg='inside a fixpoint loop / recursion', file=rel,
+                                line=n.lineno, props=props))
+                continue
+            it = loops[-1].iter
+            ordered = any(isinstance(c, ast.Call) and 'sort' in stmt_text(c.func).lower() for c in ast.walk(it)) or \
+                any(isinstance(c, ast.Call) and isinstance(c.func, ast.Name) and c.func.id == 'reversed' for c in ast.walk(it))
+            if ordered:
+                out.append(Inst(RULE, f.short, construct, 'unproven', msg=f"order of '{stmt_text(it, 40)}' not decided",
+                                file=rel, line=n.lineno, props=props))
+                continue
+            out.append(Inst(
+                RULE, f.short, construct, 'violation',
+                msg=(f"'{stmt_text(n, 60)}' copies {B.value.id}.{A.attr} as it is at that moment, in a single pass over "
+                     f"'{stmt_text(it, 40)}' (declaration / insertion order): when {A.value.id} is visited before "
+                     f"{B.value.id} is complete (a subtype declared before its parent) the set misses the indirect "
+                     f"members, and whatever is answered from it (sub-type tests) is wrong for chains of three or more"),
+                file=rel, line=n.lineno, props=tuple(dict.fromkeys(tuple(props) + ('C15', 'C18')))))
+    return out
+
+
 def run(ctx) -> list[Inst]:
     prog = ctx.prog
     insts = _closure_functions(ctx)
+    insts += _closure_pass(ctx)
     insts += _build_order(ctx)
+    insts += _own_default(ctx)
+    insts += _label_owner(ctx)
     # ---------------------------------------------------------------- CLOSURE
     nreads = 0
     for f in prog.all_funcs():
